@@ -67,7 +67,11 @@ class Lexer(object):
     @TOKEN(r'("(\\.|[^"\\])*")|(\'(\\.|[^\'\\])*\')')
     def t_STRING(self, t):
         t.lexer.lineno += count_line_breaks(t.value)
-        t.value = t.value.strip("\"'").encode().decode("unicode_escape")
+        try:
+            # Drop the two delimiting quotes only; keep non-ASCII text intact while decoding escape sequences
+            t.value = t.value[1:-1].encode("latin-1", "backslashreplace").decode("unicode_escape")
+        except UnicodeDecodeError:
+            raise SyntaxError("Invalid escape sequence in string at position {0}".format(t.lexpos))
         return t
 
     @TOKEN(r"[\r\n]+")
